@@ -574,7 +574,7 @@ func c05programCase(c *Ctx, p *c05Prog) {
 
 // ---- driver ------------------------------------------------------------------------------------------
 func runC05(c *Ctx) error {
-	c.Rule = "stream P: programs of the mini-language of coq/Spec/LexSpec.v over the names a,b,c,d,e,g — a fixed corpus (witnesses of the repaired defects first), all sequences of up to 2 statements and a fixed fraction of the sequences of 3 (thorough: all of 3, a fraction of 4) from a pool of short scoping statements and from a pool of list built-in statements (result independence of concat / add / del: literals of different capacity, empty arguments, two calls on the same first argument, writes through results and arguments), and seeded random programs mixing global/block/function scopes, let, closures, recursion, defaults, argument counts below/equal/above, list and map literals with number and string keys, nested paths, dot and bracket access, len/add/del/concat, templates with single and multiple inheritance; non-trivial = at least one mark or probe; distinct by source text.  stream S: sequences of calls of the scope API (NewScope, NewChild, SetValue, SetLocalValue, GetValue with access paths over nested lists/maps incl. numeric and numeric-looking keys, negative and out-of-range indices); distinct by the sequence"
+	c.Rule = "stream P: programs of the mini-language of coq/Spec/LexSpec.v over the names a,b,c,d,e,g — a fixed corpus (witnesses of the repaired defects first), all sequences of up to 2 statements and a fixed fraction of the sequences of 3 (thorough: all of 3, a fraction of 4) from a pool of short scoping statements and from a pool of list built-in statements (result independence of concat / add / del: literals of different capacity, empty arguments, two calls on the same first argument, writes through results and arguments), and seeded random programs mixing global/block/function scopes, let, closures, recursion, defaults, argument counts below/equal/above, list and map literals with number and string keys, nested paths, dot and bracket access, len/add/del/concat, templates with single and multiple inheritance; stream fresh (c05_fresh.go): one literal with nested containers (lists in lists, maps in lists, lists in maps; constants only / with strings / with a computed item; depth 2-3) at a program point that is evaluated repeatedly (function body, parameter default, returned closure, method, template-building function, loop body, recursion), in-place writes and increments through a path of length >= 2 into one result before and after the other evaluations, all results read back; non-trivial = at least one mark or probe; distinct by source text.  stream S: sequences of calls of the scope API (NewScope, NewChild, SetValue, SetLocalValue, GetValue with access paths over nested lists/maps incl. numeric and numeric-looking keys, negative and out-of-range indices); distinct by the sequence"
 	c.BeginCases("From Coq Require Import ZArith.\nFrom Ecal Require Import Common.Bytes Model.Scope Spec.LexSpec Run.RunC05.\nOpen Scope N_scope.", "case", 150)
 
 	if c.Replay != "" {
@@ -586,6 +586,9 @@ func runC05(c *Ctx) error {
 			Stream string `json:"stream"`
 		}
 		json.Unmarshal(raw, &probe)
+		if probe.Stream == "interp" {
+			return c05interpReplay(c, raw)
+		}
 		if strings.HasPrefix(probe.Stream, "scope") {
 			var d c05ScopeCase
 			if err := json.Unmarshal(raw, &d); err != nil {
@@ -603,6 +606,9 @@ func runC05(c *Ctx) error {
 	}
 
 	for _, p := range c05corpus() {
+		c05programCase(c, p)
+	}
+	for _, p := range c05freshCorpus() {
 		c05programCase(c, p)
 	}
 	for _, d := range c05scopeCorpus() {
@@ -625,6 +631,11 @@ func runC05(c *Ctx) error {
 	for i := 0; i < c.Pick(200, 5000) && !c.Enough(); i++ {
 		c05scopeCase(c, c05scopeRandom(c))
 	}
+	// after the older streams, so that those see the same random numbers as before
+	for i := 0; i < c.Pick(120, 2500) && !c.Enough(); i++ {
+		c05programCase(c, g.freshProgram())
+	}
+	c05interpStream(c) // stream I: three-way tie with the interpreter model (c05_interp.go)
 	c.Exhaustive = false
 	return nil
 }
